@@ -137,6 +137,17 @@ func runOnce(t *testing.T, p *Property, tier string, seed uint64, scen, sched []
 		}
 		out.Sig = fmt.Sprintf("%016x", hsh)
 	}
+	if res.Reason == "maxsteps" {
+		// a run that hit the cap on scheduler decisions is inconclusive: "did not finish" verdicts
+		// drawn from it are dropped (a spin in the code under test ends as "maxyields" instead)
+		var keep []Violation
+		for _, v := range out.Violations {
+			if v.Clause != "hang" && v.Clause != "termination" && v.Clause != "livelock" {
+				keep = append(keep, v)
+			}
+		}
+		out.Violations = keep
+	}
 	if res.Reason == "maxsteps" && len(out.Violations) == 0 {
 		// a run that hit the step cap is inconclusive, never a verdict
 		out.Reason = "maxsteps"
